@@ -21,8 +21,10 @@ def jobs_for(tier, rng):
             m["pol0"] = [rng.randrange(na) for _ in range(ns)]
         elif k % 3 == 1:
             gen.int_valued_pol0(rng, m)       # whole-number starting actions returned as integers, float action space
+        elif k % 6 == 2 and not any(av == m["render"]["avecs"][0] for av in m["render"]["avecs"][1:]):
+            gen.add_unlisted_actions(rng, m, k=rng.choice([1, 2]))   # the supplied policy may use actions beyond the listed ones
         g = rng.choice([[1, 4], [1, 2], [1, 2], [3, 4]])
-        if rng.random() < 0.2:
+        if rng.random() < 0.2 and "nax" not in m:
             gen.fix_dups(m)
             gen.add_rare(rng, m)              # a rare catastrophic event (2^-127 x 2^127), see tabular.make_problem
         job = {"mdp": m, "kind": "PI", "gamma": g, "eps": [rng.choice([1, 1, 3]), rng.choice([0, 1, 2, 3])],
